@@ -26,7 +26,8 @@ TArm ==
 
 (* transfers issued in this step = difference of the shim's counter *)
 TStep ==
-    /\ Tr[l].e \notin {"Reset", "Header", "shim"}
+    /\ Tr[l].e \notin {"Reset", "Header", "shim", "ABNORMAL"}     \* (a rank that never returned ends the trace: rejected)
+    /\ \E i \in 1..Len(Tr[l].rk) : Tr[l].rk[i].rc # "SKIPPED"
     /\ LET ev == Tr[l]
            io == [p \in Ranks |-> IF Has(ev, p) /\ "io" \in DOMAIN ev.rk[ByRank(ev, p)].obs
                                     THEN ev.rk[ByRank(ev, p)].obs.io.count - done[p] ELSE 0]
@@ -38,7 +39,13 @@ TStep ==
                               => (ev.rk[ByRank(ev, p)].obs.io.fired = 1) = fired')
     /\ l' = l + 1
 
-TNext == l <= Len(Tr) /\ (TReset \/ TArm \/ TStep)
+(* steps the harness did not execute because the program ended where the failure fired *)
+TSkipped ==
+    /\ Tr[l].e \notin {"Reset", "Header", "shim", "ABNORMAL"}
+    /\ \A i \in 1..Len(Tr[l].rk) : Tr[l].rk[i].rc = "SKIPPED"
+    /\ UNCHANGED vars /\ l' = l + 1
+
+TNext == l <= Len(Tr) /\ (TReset \/ TArm \/ TSkipped \/ TStep)
 TInit == l = 1 /\ Init
 TraceSpec == TInit /\ [][TNext]_tvars
 TraceAccepted ==
